@@ -68,6 +68,7 @@ TIMER_CONS = [("FxInterrupt", ""),             # self.proc.interrupt("restart ti
               ("FxNewProc", "")]               # self.proc = self.env.process(self.run(self.env))
 TIMER_READS = [("self.env.now", "now", "Q"),
                ("timeout", "tau", "Q"),                                            # the argument of restart()
+               ("math.nextafter(self.env.now, math.inf)", "next_instant", "Q"),    # _arm(): used only when now + tau rounds to now
                ("self.env.active_process is self.proc", "own_callback", "bool", "volatile"),
                ("self.proc.is_alive", "proc_alive", "bool", "volatile")]
 TIMER_FX = [('self.proc.interrupt("restart timer")', "FxInterrupt", []),
@@ -79,7 +80,7 @@ def extracted_timer(repo):
     from vlib import translate as tr
     path = os.path.join(repo, "onl", "utils", "timer.py")
     specs = [tr.FnSpec(path, "Timer", "stop", "gen_Timer_stop", reads=TIMER_READS, effects=TIMER_FX),
-             tr.FnSpec(path, "Timer", "restart", "gen_Timer_restart", reads=TIMER_READS, effects=TIMER_FX)]
+             tr.FnSpec(path, "Timer", "restart", "gen_Timer_restart", reads=TIMER_READS, effects=TIMER_FX, inline=["_arm"])]
     return tr.gen_module("onl/utils/timer.py: Timer.stop, Timer.restart", "timer_st", "t_", TIMER_STATE, "timer_fx",
                          TIMER_CONS, specs)
 
